@@ -1,7 +1,8 @@
-(* C15 - Implied conditional independencies are enumerated exactly (relative to the separation
-   test are_d_separated; C04 relates that test to true separation). *)
+(* C15 - Implied conditional independencies are enumerated exactly. The first group of theorems is relative to the
+   modelled test are_d_separated; the second group restates them for true m-separation (no active walk, Graph/MSep.v)
+   through the correctness theorem of C04. *)
 From Coq Require Import List Bool Arith.
-From Y0 Require Import Base.ListSet Graph.MixedGraph Graph.DSep Graph.CondInd Proofs.CondIndP.
+From Y0 Require Import Base.ListSet Graph.MixedGraph Graph.DSep Graph.MSep Graph.CondInd Proofs.CondIndP Proofs.CondIndSemP.
 Import ListNotations.
 
 Section C15.
@@ -45,6 +46,21 @@ Section C15.
   Proof.
     exact (fun Hs => proj2 (Nat.lt_succ_r _ _) (NoDup_incl_length_sublist l c Hs)).
   Qed.
+
+  (* ---- in terms of true separation; vs enumerates the node set ---- *)
+  Theorem C15_listed_judgements_are_true_separations_of_minimum_size (g : mg) vs mc a b C :
+    (forall x, In x vs <-> In x (nodes g)) ->
+    In (a, b, C) (d_separations g vs mc) ->
+    ~ m_connected g C a b /\
+    (forall C', sublist C' (rest_of vs a b) -> length C' < length C -> m_connected g C' a b).
+  Proof. exact (listed_is_minimum_m_separation g vs mc a b C). Qed.
+
+  Theorem C15_every_truly_separable_pair_is_listed (g : mg) vs mc a b :
+    (forall x, In x vs <-> In x (nodes g)) ->
+    In (a, b) (pairs vs) ->
+    (exists C', sublist C' (rest_of vs a b) /\ length C' < stop_of mc (length (rest_of vs a b)) /\ ~ m_connected g C' a b) ->
+    exists C, In (a, b, C) (d_separations g vs mc).
+  Proof. exact (m_separable_pair_is_listed g vs mc a b). Qed.
 End C15.
 
 Print Assumptions C15_listed_judgements_are_minimum_separations.
@@ -52,3 +68,5 @@ Print Assumptions C15_every_separable_pair_is_listed.
 Print Assumptions C15_exactly_one_judgement_per_unordered_pair.
 Print Assumptions C15_size_limit.
 Print Assumptions C15_no_limit_tries_every_subset.
+Print Assumptions C15_listed_judgements_are_true_separations_of_minimum_size.
+Print Assumptions C15_every_truly_separable_pair_is_listed.
